@@ -66,6 +66,16 @@ MARK = "\n## 11. What was built, per property (generated from design.d/)\n"
 if MARK in d:
     d = d[:d.index(MARK)]
 body = MARK + "\nEach part below is written by whoever built that property's model and check; it records the model scope, the exact theorems, findings with their failing inputs, which seeded or self-made mutations the check catches, and costs.\n\n"
+# table of every finding (from known_findings.d) and of every seeded change (from seeded/*/meta.json)
+body += "### Findings on the pinned tree (supersedes the plan in section 8)\n\n| id | property | status | lal commit | what |\n|---|---|---|---|---|\n"
+for e in sorted(kf, key=lambda e: (e.get("property", ""), e.get("finding_id", ""))):
+    body += "| %s | %s | %s | %s | %s |\n" % (e.get("finding_id", ""), e.get("property", ""), e.get("status", ""), e.get("commit", "") or "-",
+                                        " ".join(str(e.get("what", "")).split())[:260].replace("|", "/"))
+body += "\n### Seeded changes and which checks catch them\n\nEach change was produced by a fresh sub-agent that saw only the property text and its own worktree of lal; it compiles, passes lal's suite, and comes with a demonstration that fails with it and passes without it (`seeded/<id>/`). `tools/tryseed.sh` confirms that and runs the checks.\n\n| seed | caught by | how |\n|---|---|---|\n"
+for f in sorted(glob.glob(os.path.join(ROOT, "seeded", "*", "meta.json"))):
+    m = json.load(open(f))
+    body += "| %s | %s | %s |\n" % (os.path.basename(os.path.dirname(f)), m.get("caught_by", "?"), " ".join(str(m.get("detection", "")).split())[:300].replace("|", "/"))
+body += "\n"
 for f in sorted(glob.glob(os.path.join(ROOT, "design.d", "*.md"))):
     body += open(f).read().rstrip() + "\n\n"
 open(dp, "w").write(d.rstrip() + "\n" + body)
